@@ -36,7 +36,19 @@ CONFIG_PANICS = ("Unable to canonicalize", "Expected config to be", "Error parsi
 
 
 def classify(r, label, witness):
-    """-> violation dict or None.  Raises Inconclusive for a watchdog."""
+    """-> violation dict or None.  Raises Inconclusive for a watchdog.
+
+    Panic signatures name the cause, not the place where it happened to surface first:
+    * `expect()` on an Err(Diagnostic) prints `<expect text>: Diagnostic(DiagnosticData { message: "..."`; the expect text
+      is shared by unrelated causes (e.g. "Expected to get query root entity" for a pointer to an unfetchable type and
+      for a hard-coded root type), so the signature is file + short expect text + the normalised diagnostic message;
+    * an arithmetic overflow (only a panic because the check's build has overflow checks; a --release build wraps) is
+      named after the overflowing expression read from the source line the panic points at, not after the file: the u8
+      `indentation_level + 1` overflows first in query_text.rs or in normalization_ast_text.rs depending on the depth;
+    * a panic raised by the config loader (crates/isograph_config/src/compilation_options.rs: it rejects every bad
+      config by a deliberate panic, e.g. a multi-line generated_file_header) means the configuration is not well-formed:
+      not judged, like the CONFIG_PANICS above."""
+    norm = lambda t: re.sub(r"[0-9]+", "#", re.sub(r"`[^`]*`|\"[^\"]*\"|'[^']*'", "<q>", t))
     if r.timed_out:
         if r.cpu_s > cc.CPU_BOUND_S:
             return {"rule": "no-progress", "signature": f"C08/cpu-bound-exceeded/{label}", "what": f"{witness['case']} burned {r.cpu_s:.0f}s CPU", "witness": witness}
@@ -47,9 +59,25 @@ def classify(r, label, witness):
     if r.panicked():
         m = PANIC.search(r.stderr)
         f = os.path.basename(m.group(1)) if m else "?"
-        msg = re.sub(r"`[^`]*`|\"[^\"]*\"|'[^']*'", "<q>", m.group(3)) if m else ""
-        msg = re.sub(r"[0-9]+", "#", msg)[:70]
-        return {"rule": "panic", "signature": f"C08/panic/{f}/{msg}", "what": f"{witness['case']} panicked at {f}:{m.group(2) if m else '?'}: {(m.group(3) if m else r.stderr[-200:])[:160]}",
+        text = m.group(3) if m else ""
+        if m and m.group(1).replace("\\", "/").endswith("isograph_config/src/compilation_options.rs"):
+            return None
+        inner = re.search(r"^(.*?): Diagnostic\(DiagnosticData \{ message: \"((?:[^\"\\]|\\.)*)\"", text)
+        if inner:
+            msg = norm(inner.group(1))[:40] + " :: " + norm(inner.group(2).replace('\\"', '"'))[:60]
+        elif re.search(r"attempt to .* with overflow", text):
+            expr = ""
+            try:
+                line = open(os.path.join(runner.REPO, m.group(1)), errors="replace").read().split("\n")[int(m.group(2)) - 1]
+                col = int(re.search(r":(\d+):\n", m.group(0)).group(1))
+                e = re.match(r"\(?\s*([\w.]+\s*(?:[-+*]|<<)\s*[\w.]+)", line[col - 1:])
+                expr = e.group(1) if e else line.strip()
+            except (OSError, IndexError, AttributeError, ValueError):
+                pass
+            f, msg = "arithmetic-overflow", norm(expr or text)[:70]
+        else:
+            msg = norm(text)[:70]
+        return {"rule": "panic", "signature": f"C08/panic/{f}/{msg}", "what": f"{witness['case']} panicked at {os.path.basename(m.group(1)) if m else '?'}:{m.group(2) if m else '?'}: {(text if m else r.stderr[-200:])[:160]}",
                 "witness": dict(witness, stderr_tail=r.stderr[-700:])}
     if r.cpu_s > cc.CPU_BOUND_S:
         return {"rule": "no-progress", "signature": f"C08/cpu-bound-exceeded/{label}", "what": f"{witness['case']} burned {r.cpu_s:.0f}s CPU", "witness": witness}
